@@ -9,7 +9,7 @@ from ..core import cforest, clist, copt, cpair, cnat, cstr
 ID = "C01"
 THEOREM_FILE = "Properties/C01.v"
 META = {
-    "text": "Proof (Coq, coq/Properties/C01.v, 19 theorems, closed under the global context; any rule matcher, rulebooks of "
+    "text": "Proof (Coq, coq/Properties/C01.v, 24 theorems, closed under the global context; any rule matcher, rulebooks of "
             "any nesting with %global rules, any ordering rulebook, trees of any depth, rows no rule knows anywhere): on the "
             "device of coq/Model/Device.v (one entry per (rule,key) slot per level), executing path by path the cmd_paths of "
             "the model of _diff_and_patch for (old,new) reaches expected(R,old,new) (C01_expected: default, undo_redo, "
@@ -25,7 +25,13 @@ META = {
             "order_ok_o) executing the model's command paths on old yields new as a SEQUENCE - equality of forests "
             "(C01_ordered_flat, C01_ordered_machine); without 'the key determines the row' the order-sensitive reading is "
             "false: a re-texted %ordered row is re-created before rows that precede it in new (C01_ordered_retext_refuted, "
-            "replayed on the real pipeline, known finding). Correspondence: "
+            "replayed on the real pipeline, known finding). %rewrite rules: the patch + device half is proved at every depth "
+            "(C01_rewrite_patch_builds_partial: for every diff whose levels are governed by one %rewrite rule each with distinct "
+            "keys, make_pre / make_patch / logic rewrite compute a patch and, under rw_keys_ok_b, executing it in the freshly "
+            "reset block builds exactly the non-REMOVED entries in the diff's order, children alike - equality of forests); "
+            "the block statement (diff half, header step) is stated only and evaluated on examples; a re-texted %rewrite key "
+            "is dropped (C01_rewrite_retext_refuted) and a block mixing %rewrite and ordinary child rules loses its %rewrite "
+            "rows when entered for another row (C01_rewrite_mixed_refuted), both replayed on the real pipeline. Correspondence: "
             "chains are run through the real _diff_and_patch / cmd_paths, Coq re-executes Device.exec on the REAL command "
             "paths, checks the runner's fed-back device state, the model's diff / patch / cmd_paths against the real ones, "
             "and evaluates P_C01's clauses (reaches expected, second patch a no-op and empty, second diff empty) per step.",
@@ -36,7 +42,7 @@ META = {
             "Juniper/Nokia/RouterOS command forms), default diff logic, logics default/undo_redo/permanent/ignore_changes, no "
             "%force_commit, unambiguous removal commands, at most one row per (rule,key). Not proved (statements kept in "
             "Properties/C01.v): %ordered rows with bodies / mixed with other rules / below a block (only the flat one-rule "
-            "level is proved; the ordered reading P_C01o is evaluated on every real output), %rewrite, %multiline, second patch a no-op when a change was declined (checked on "
+            "level is proved; the ordered reading P_C01o is evaluated on every real output), %rewrite blocks as a whole (C01_rewrite_block_statement; only the patch + device half is proved, P_C01 is not evaluated on real outputs for %rewrite rules - the model's diff / patch / cmd_paths are compared with the real ones), %multiline, second patch a no-op when a change was declined (checked on "
             "every real output), order_ok on the shipped ordering rulebooks (no translator of shipped rule texts yet). "
             "P_C01 is evaluated on real outputs also for %force_commit rulebooks. Vendor-specific %logic functions are out "
             "of the property's quantifier. Theorems are about the Gallina models; models are tied to /repo by the "
@@ -461,6 +467,18 @@ def witnesses() -> list[dict]:
               "old": {"entry 2 x": {}, "entry 5": {}, "entry 6": {}},
               "news": [{"entry 7": {}, "entry 1 y": {}, "entry 2 y": {}}],
               "expect": {"in_domain_o": True, "has_ordered": True, "reaches": True, "reaches_o": False},
+              "second_patch_nonempty": True})
+    # %rewrite: the key of `ent *` does not contain the whole row; the re-texted row is dropped by the logic `rewrite`
+    rules = [_r("xpl *", kids=[_orule("ent *", mode="rewrite")])]
+    w.append({"name": "C01_rewrite_retext_refuted", "vendor": "huawei", "rules": rules, "orules": [],
+              "old": {"xpl foo": {"ent 1 x": {}, "ent 2 x": {}}}, "news": [{"xpl foo": {"ent 1 y": {}, "ent 2 x": {}}}],
+              "expect": {"in_domain": False, "in_domain_o": False, "reaches": False},
+              "second_patch_nonempty": True})
+    # a %rewrite child rule next to an ordinary one: entering the block for the ordinary row resets the %rewrite rows
+    rules = [_r("xpl *", kids=[_orule("ent *", mode="rewrite"), _r("mtu *")])]
+    w.append({"name": "C01_rewrite_mixed_refuted", "vendor": "huawei", "rules": rules, "orules": [],
+              "old": {"xpl foo": {"ent 1": {}, "mtu 5": {}}}, "news": [{"xpl foo": {"ent 1": {}, "mtu 6": {}}}],
+              "expect": {"in_domain": False, "in_domain_o": False, "reaches": False},
               "second_patch_nonempty": True})
     for c in w:
         c["patching"] = P.rules_text(c["rules"])
